@@ -338,6 +338,8 @@ def _psig(p):
 
 
 def run_case(case, ctx):
+    import tempfile
+    tempfile.tempdir = ctx.scratch      # C sources of failed compilations stay in the private scratch dir
     if case["kind"] == "prog":
         return _run_prog(case, ctx)
     if case["kind"] == "python-base":
